@@ -50,6 +50,21 @@ def innermost(Qi, elem):
     raise core.MachineryError(elem)
 
 
+def select_arity(q):
+    """number of select-list items of a query, read off its own rendering (no look at private attributes)"""
+    toks = lexer.lex(str(q), "sqlite")
+    n, depth0 = 1, None
+    for k, t in enumerate(toks):
+        if t["t"] == "word" and t["v"] == "SELECT" and depth0 is None:
+            depth0 = t["d"]
+        elif depth0 is not None and t["d"] == depth0:
+            if t["t"] == "word" and t["v"] == "FROM":
+                break
+            if t["t"] == "punct" and t["v"] == ",":
+                n += 1
+    return n
+
+
 def nest(Qo, Qi, q, construct):
     """embed q (built with Qi) in a statement of construct kind built with Qo"""
     import pypika_tortoise as P
@@ -70,7 +85,7 @@ def nest(Qo, Qi, q, construct):
         return Qo.from_(o).select(o.k, q.as_("ss"))
     if construct == "cte":
         return Qo.with_(q, "cq").from_(P.AliasedQuery("cq")).select("a")
-    n = max(len(getattr(q, "_selects", [])), 1)
+    n = select_arity(q)
     other = Qi.from_(o).select(*[o.field("k%d" % i) for i in range(n)])
     if construct == "setop-base":
         return q.union(other)
